@@ -12,7 +12,8 @@ using namespace vt;
 
 struct Ctx
 {
-   std::map<int, int> modsSinceBasis;   // per object: LP modifications since the basis was last set by optimize/setBasis
+   std::map<int, int> modsSinceBasis;
+   std::map<int, bool> noInternal;      // object is a copy, or its SCALER parameter changed while the LP was scaled   // per object: LP modifications since the basis was last set by optimize/setBasis
    Rng rng;
    std::map<int, std::unique_ptr<SoPlex>> objs;
    bool logOthers = false;
@@ -28,14 +29,14 @@ static std::string others(Ctx& c, int o)
    {
       if(kv.first == o) continue;
       if(!first) s << ","; first = false;
-      s << "{\"o\":" << kv.first << ",\"st\":" << proj(*kv.second) << "}";
+      s << "{\"o\":" << kv.first << ",\"st\":" << proj(*kv.second, !c.noInternal[kv.first]) << "}";
    }
    s << "]"; return s.str();
 }
 static void emit(Ctx& c, int o, J& ev)
 {
    auto it = c.objs.find(o);
-   if(it != c.objs.end()) ev.raw("st", proj(*it->second));
+   if(it != c.objs.end()) ev.raw("st", proj(*it->second, !c.noInternal[o]));
    ev.raw("others", others(c, o));
    T().line(ev.str());
 }
@@ -81,7 +82,7 @@ static DSVector randVec(Ctx& c, Gen& gen, int dim, int extra, std::string& js)
 static int createObj(Ctx& c)
 {
    int id = c.nextId++;
-   c.objs[id].reset(new SoPlex());
+   c.objs[id].reset(new SoPlex()); c.noInternal[id] = false; c.modsSinceBasis[id] = 0;
    SoPlex& s = *c.objs[id];
    s.setIntParam(SoPlex::VERBOSITY, 0);
    J ev; ev.s("a", "create").i("o", id);
@@ -90,6 +91,7 @@ static int createObj(Ctx& c)
 }
 static void setInt(Ctx& c, int o, const char* name, SoPlex::IntParam p, int v)
 {
+   if(p == SoPlex::SCALER && Probe::scaled(*c.objs[o])) c.noInternal[o] = true;
    bool ret = c.objs[o]->setIntParam(p, v);
    J ev; ev.s("a", "setInt").i("o", o).s("p", name).i("v", v).b("ret", ret);
    emit(c, o, ev);
@@ -149,7 +151,7 @@ static int optimize(Ctx& c, int o, SolveOpts so, volatile bool* interrupt = null
       r.raw("brow", statuses(br.data(), nr)).raw("bcol", statuses(bc.data(), nc)).raw("bind", jints(bind.data(), nr));
    }
    else r.raw("brow", "[]").raw("bcol", "[]").raw("bind", "[]");
-   r.i("iters", s.numIterations());
+   r.i("iters", s.numIterations()).b("interrupted", interrupt != nullptr && *interrupt);
    c.modsSinceBasis[o] = 0;
    J ev; ev.s("a", "optimize").i("o", o).b("exact", false).b("limited", so.limited).b("complete", so.complete).s("pdig", pdig).s("detKey", so.detKey).raw("r", r.str());
    emit(c, o, ev);
@@ -160,6 +162,7 @@ static void queryBasis(Ctx& c, int o)
 {
    SoPlex& s = *c.objs[o]; int nr = s.numRows(), nc = s.numCols();
    std::vector<int> bind(nr + 1);
+   pending() = "queryBasis modsSinceBasis=" + std::to_string(c.modsSinceBasis[o]);
    if(s.hasBasis()) s.getBasisInd(bind.data());
    J ev; ev.s("a", "queryBasis").i("o", o).i("modsSinceBasis", c.modsSinceBasis[o]);
    ev.raw("prow", jarr(nr, [&](int i) { return std::to_string((int)s.basisRowStatus(i)); }));
@@ -365,14 +368,15 @@ static void freshSolve(Ctx& c, int o, bool transplantBasis = false, const std::s
 {
    SoPlex& s = *c.objs[o];
    int id = c.nextId++;
-   c.objs[id].reset(new SoPlex());
+   c.objs[id].reset(new SoPlex()); c.noInternal[id] = false; c.modsSinceBasis[id] = 0;
    SoPlex& f = *c.objs[id];
    f.setIntParam(SoPlex::VERBOSITY, 0);
    { J ev; ev.s("a", "create").i("o", id); emit(c, id, ev); }
    f.setSettings(s.settings());
    { J g; g.i("sense", f.intParam(SoPlex::OBJSENSE)).q("offset", f.realParam(SoPlex::OBJ_OFFSET)).q("ftol", f.realParam(SoPlex::FEASTOL))
         .q("otol", f.realParam(SoPlex::OPTTOL)).i("iterlimit", f.intParam(SoPlex::ITERLIMIT)).b("ensureray", f.boolParam(SoPlex::ENSURERAY))
-        .i("sync", f.intParam(SoPlex::SYNCMODE)).q("epsz", f.realParam(SoPlex::EPSILON_ZERO));
+        .i("sync", f.intParam(SoPlex::SYNCMODE)).q("epsz", f.realParam(SoPlex::EPSILON_ZERO))
+        .q("tlimit", f.realParam(SoPlex::TIMELIMIT)).q("objlo", f.realParam(SoPlex::OBJLIMIT_LOWER)).q("objup", f.realParam(SoPlex::OBJLIMIT_UPPER));
      J ev; ev.s("a", "setSettingsFrom").i("o", id).i("src", o).raw("g", g.str()); emit(c, id, ev); }
    int nr = s.numRows(), nc = s.numCols();
    for(int j = 0; j < nc; j++)
@@ -887,7 +891,7 @@ static int copyObj(Ctx& c, int src, bool assign, int into = -1)
    int id = into >= 0 ? into : c.nextId++;
    if(assign) *c.objs[id] = *c.objs[src];
    else c.objs[id].reset(new SoPlex(*c.objs[src]));
-   c.modsSinceBasis[id] = c.modsSinceBasis[src];
+   c.modsSinceBasis[id] = c.modsSinceBasis[src]; c.noInternal[id] = true;
    J ev; ev.s("a", assign ? "assign" : "copy").i("o", id).i("src", src).raw("srcSol", solJson(*c.objs[src])).raw("dstSol", solJson(*c.objs[id]));
    emit(c, id, ev);
    return id;
@@ -939,6 +943,146 @@ static void wlCopy(Ctx& c, int nexec, int len)
    }
 }
 
+// ---------------------------------------------------------------- C16: limits and interrupts ("crash points" = every stop point k)
+static int newLoaded(Ctx& c, const LPData& L, unsigned long cfgSeed)
+{
+   int o = createObj(c);
+   Rng saved = c.rng; c.rng = Rng(cfgSeed); fullConfig(c, o); c.rng = saved;      // same configuration for all objects of an execution
+   loadLP(c, o, L, false); witness(c, o, L);
+   return o;
+}
+static void wlLimits(Ctx& c, int nexec, int len, int maxDim)
+{
+   for(int e = 0; e < nexec; e++)
+   {
+      T().line("{\"a\":\"Reset\"}");
+      c.objs.clear(); c.nextId = 0;
+      LPData L = genWitnessed(c.rng, maxDim, c.rng.coin(4, 5) ? "OPT" : (c.rng.coin() ? "INF" : "UNB"), 0);
+      unsigned long cfg = c.rng.g();
+      int base = newLoaded(c, L, cfg);
+      SolveOpts so; optimize(c, base, so);
+      int N = c.objs[base]->numIterations();
+      double optval = c.objs[base]->objValueReal(); bool isOpt = c.objs[base]->status() == SPxSolver::OPTIMAL;
+      destroyObj(c, base);
+      // iteration limit k for every k = 0..N+1, then lift the limit and continue
+      for(int k = 0; k <= std::min(N + 1, len); k++)
+      {
+         int o = newLoaded(c, L, cfg);
+         setInt(c, o, "ITERLIMIT", SoPlex::ITERLIMIT, k);
+         SolveOpts lim; lim.limited = true; lim.complete = false; optimize(c, o, lim); queryBasis(c, o);
+         if(c.rng.coin(1, 3)) { optimize(c, o, lim); }                              // a second limited call continues from the stored basis
+         setInt(c, o, "ITERLIMIT", SoPlex::ITERLIMIT, -1);
+         SolveOpts fin; optimize(c, o, fin);
+         destroyObj(c, o);
+      }
+      // time limit zero, interrupt flag raised before the first iteration
+      {
+         int o = newLoaded(c, L, cfg);
+         setReal(c, o, "TIMELIMIT", SoPlex::TIMELIMIT, 0.0);
+         SolveOpts lim; lim.limited = true; lim.complete = false; optimize(c, o, lim);
+         setReal(c, o, "TIMELIMIT", SoPlex::TIMELIMIT, infinity);
+         SolveOpts fin; optimize(c, o, fin); destroyObj(c, o);
+      }
+      {
+         int o = newLoaded(c, L, cfg);
+         volatile bool flag = true; SolveOpts lim; lim.limited = true; lim.complete = false; optimize(c, o, lim, &flag);
+         SolveOpts fin; optimize(c, o, fin); destroyObj(c, o);
+      }
+      // objective limits on both sides of the optimum
+      if(isOpt)
+         for(int side = -1; side <= 1; side += 2)
+         {
+            int o = newLoaded(c, L, cfg);
+            double lim = optval + side * (1.0 + std::fabs(optval) / 4);
+            if(L.sense == -1) setReal(c, o, "OBJLIMIT_UPPER", SoPlex::OBJLIMIT_UPPER, lim); else setReal(c, o, "OBJLIMIT_LOWER", SoPlex::OBJLIMIT_LOWER, lim);
+            SolveOpts l2; l2.limited = true; l2.complete = false; optimize(c, o, l2);
+            if(L.sense == -1) setReal(c, o, "OBJLIMIT_UPPER", SoPlex::OBJLIMIT_UPPER, infinity); else setReal(c, o, "OBJLIMIT_LOWER", SoPlex::OBJLIMIT_LOWER, -infinity);
+            SolveOpts fin; optimize(c, o, fin); destroyObj(c, o);
+         }
+   }
+}
+
+// ---------------------------------------------------------------- C09: scaling
+static void wlScale(Ctx& c, int nexec, int len)
+{
+   for(int e = 0; e < nexec; e++)
+   {
+      T().line("{\"a\":\"Reset\"}");
+      c.objs.clear(); c.nextId = 0;
+      Gen gen{c.rng, 1};
+      int o = createObj(c);
+      setInt(c, o, "SCALER", SoPlex::SCALER, c.rng.R(1, 6));
+      setBool(c, o, "PERSISTENTSCALING", SoPlex::PERSISTENTSCALING, c.rng.coin(3, 4));
+      setInt(c, o, "SIMPLIFIER", SoPlex::SIMPLIFIER, c.rng.coin(2, 3) ? SoPlex::SIMPLIFIER_OFF : SoPlex::SIMPLIFIER_INTERNAL);
+      setInt(c, o, "REPRESENTATION", SoPlex::REPRESENTATION, c.rng.coin() ? SoPlex::REPRESENTATION_AUTO : SoPlex::REPRESENTATION_COLUMN);
+      setBool(c, o, "ENSURERAY", SoPlex::ENSURERAY, c.rng.coin());
+      LPData L = genWitnessed(c.rng, 5, c.rng.coin(3, 4) ? "OPT" : (c.rng.coin() ? "INF" : "UNB"), 10);
+      loadLP(c, o, L, false); witness(c, o, L);
+      int maxDim = 6;
+      for(int step = 0; step < len; step++)
+      {
+         int k = c.rng.R(0, 99); SoPlex& s = *c.objs[o]; bool solvable = s.numCols() > 0 && s.numRows() > 0;
+         if(k < 45) { int tries = 0; while(!randomModReal(c, o, gen, maxDim) && ++tries < 50) {} }
+         else if(k < 85) { if(!solvable) continue; SolveOpts so; so.complete = false; optimize(c, o, so); if(c.rng.coin(1, 4)) freshSolve(c, o); }
+         else if(k < 92) queryBasis(c, o);
+         else if(k < 96) setInt(c, o, "SCALER", SoPlex::SCALER, c.rng.R(0, 6));
+         else setBool(c, o, "PERSISTENTSCALING", SoPlex::PERSISTENTSCALING, c.rng.coin());
+      }
+   }
+}
+static std::string bareProj(const SPxLPBase<double>& lp, bool raw)
+{
+   int nr = lp.nRows(), nc = lp.nCols(); J o;
+   auto num = [&](double v) { return jq(raw ? qdraw(v) : qd(v)); };
+   o.i("nr", nr).i("nc", nc).i("sense", lp.spxSense() == SPxLPBase<double>::MAXIMIZE ? 1 : -1);
+   o.raw("rows", jarr(nr, [&](int i) { const SVectorBase<double>& v = lp.rowVector(i); std::vector<std::pair<int, std::string>> e; for(int k = 0; k < v.size(); k++) e.push_back({v.index(k), qdraw(v.value(k))}); return jsp(e); }));
+   o.raw("cols", jarr(nc, [&](int j) { const SVectorBase<double>& v = lp.colVector(j); std::vector<std::pair<int, std::string>> e; for(int k = 0; k < v.size(); k++) e.push_back({v.index(k), qdraw(v.value(k))}); return jsp(e); }));
+   o.raw("lhs", jarr(nr, [&](int i) { return jq(qd(lp.lhs(i))); })).raw("rhs", jarr(nr, [&](int i) { return jq(qd(lp.rhs(i))); }));
+   o.raw("lo", jarr(nc, [&](int j) { return jq(qd(lp.lower(j))); })).raw("up", jarr(nc, [&](int j) { return jq(qd(lp.upper(j))); }));
+   o.raw("maxobj", jarr(nc, [&](int j) { return jq(qdraw(lp.maxObj(j))); }));
+   return o.str();
+}
+// every scaler on a bare SPxLPBase: scale, record the exponents, unscale; TLC checks scaled = orig * 2^e exactly and back = orig bit for bit
+static void wlScalerBare(Ctx& c, int nexec, int len)
+{
+   SPxOut out; out.setVerbosity(SPxOut::ERROR);
+   for(int e = 0; e < nexec; e++)
+   {
+      T().line("{\"a\":\"Reset\"}");
+      for(int t = 0; t < len; t++)
+      {
+         LPData L = genWitnessed(c.rng, 6, "OPT", c.rng.R(4, 20));
+         SPxLPBase<double> lp; auto tol = std::make_shared<Tolerances>(); lp.setTolerances(tol); lp.setOutstream(out);
+         lp.changeSense(L.sense == 1 ? SPxLPBase<double>::MAXIMIZE : SPxLPBase<double>::MINIMIZE);
+         for(int j = 0; j < L.n; j++) { DSVector ev; lp.addCol(LPCol(L.c[j], ev, L.up[j], L.lo[j])); }
+         for(int i = 0; i < L.m; i++) { DSVector v; spRowOf(L, i, v); lp.addRow(LPRow(L.lhs[i], v, L.rhs[i])); }
+         int which = c.rng.R(1, 6); if(which == 5) { bool emptyVec = false; for(int j = 0; j < lp.nCols(); j++) emptyVec = emptyVec || lp.colVector(j).size() == 0; for(int i = 0; i < lp.nRows(); i++) emptyVec = emptyVec || lp.rowVector(i).size() == 0; if(emptyVec) which = 6; }   // KF-03
+         std::unique_ptr<SPxScaler<double>> sc;
+         switch(which)
+         {
+         case 1: sc.reset(new SPxEquiliSC<double>(false)); break;
+         case 2: sc.reset(new SPxEquiliSC<double>(true)); break;
+         case 3: sc.reset(new SPxGeometSC<double>(false, 1)); break;
+         case 4: sc.reset(new SPxGeometSC<double>(false, 8)); break;
+         case 5: sc.reset(new SPxLeastSqSC<double>()); break;
+         default: sc.reset(new SPxGeometSC<double>(true, 8)); break;
+         }
+         sc->setOutstream(out); sc->setTolerances(tol);
+         pending() = "scalerBare " + std::to_string(which);
+         std::string orig = bareProj(lp, true);
+         sc->scale(lp, true);
+         bool scaled = lp.isScaled();
+         std::string rexp = jarr(lp.nRows(), [&](int i) { return std::to_string(scaled ? sc->getRowScaleExp(i) : 0); });
+         std::string cexp = jarr(lp.nCols(), [&](int j) { return std::to_string(scaled ? sc->getColScaleExp(j) : 0); });
+         std::string mid = bareProj(lp, true);
+         if(scaled) sc->unscale(lp);
+         std::string back = bareProj(lp, true);
+         J ev; ev.s("a", "scalerBare").i("scaler", which).b("scaled", scaled).raw("orig", orig).raw("rexp", rexp).raw("cexp", cexp).raw("mid", mid).raw("back", back);
+         T().line(ev.str());
+      }
+   }
+}
+
 // C04: every point of a history at which hasBasis() is true; set/read back; transplant into a new object
 static void wlBasis(Ctx& c, int nexec, int len)
 {
@@ -986,6 +1130,10 @@ int main(int argc, char** argv)
    else if(wl == "basis") wlBasis(c, nexec, len);
    else if(wl == "sync") wlSync(c, nexec, len);
    else if(wl == "copy") wlCopy(c, nexec, len);
+   else if(wl == "scale") wlScale(c, nexec, len);
+   else if(wl == "scalerbare") wlScalerBare(c, nexec, len);
+   else if(wl == "limits") wlLimits(c, nexec, len, 6);
+   else if(wl == "limitsbig") wlLimits(c, nexec, len, 14);
    else if(wl == "certbig") wlCert(c, nexec, len, 14, 0);
    else if(wl == "certscaled") wlCert(c, nexec, len, 6, 12);
    else { fprintf(stderr, "unknown workload %s\n", wl.c_str()); return 2; }
